@@ -22,7 +22,8 @@ RULE = ('plain keys: secret from boundary classes (small, near n, leading zero b
         'without hints; get_key_format on WIF, extended keys and BIP38-shaped strings; BIP38 export (compared with '
         'ref/bip38) -> Key(bip38, password=) import for secrets biased to a last byte 01/00. Non-trivial = non-bitcoin network or '
         'witness type other than segwit (library default) or multisig or leading-zero secret or depth > 0 or uncompressed; '
-        'distinct by (key, metadata, configuration, import specs). [every imported object: both public encodings, x, y against the reference and import of its own exports; secrets whose point has leading-zero coordinates] [BIP38 round trips also through HDKey]')
+        'distinct by (key, metadata, configuration, import specs). [every imported object: both public encodings, x, y against the reference and import of its own exports; secrets whose point has leading-zero coordinates] [BIP38 round trips also through HDKey]'
+        ' [WIF imported with the opposite compressed argument; plain formats imported into HDKey with a supplied witness type and multisig flag]')
 ASSUMPTIONS = ['ref/networks_pinned.json holds the intended prefix of every network (snapshot of the baseline, cross-checked '
                'against public chain parameters for bitcoin/testnet/litecoin/dogecoin)',
                'witness type / multisig are demanded after import only when the version bytes determine them uniquely among '
@@ -222,6 +223,10 @@ def _import_plain(ctx, spec, d, pt, compressed, net, case):
         kw['compressed'] = not compressed
     if 'is_private' in hints:
         kw['is_private'] = private
+    if via == 'HDKey' and private and spec.get('hd'):
+        # the plain formats say nothing about witness type and multisig flag: what the caller supplies is what the
+        # extended key object is (and exports) afterwards
+        kw['witness_type'], kw['multisig'] = spec['hd'][0], bool(spec['hd'][1])
     what = '%s(%s=%s%s)' % (via, fmt, _short(rep), ''.join(', %s=%r' % kv for kv in sorted(kw.items())))
     sharing = _wif_networks(net) if fmt == 'wif' else None
     try:
@@ -287,6 +292,15 @@ def _import_plain(ctx, spec, d, pt, compressed, net, case):
             return bad('network', net)
     elif sharing is not None and got['network'] not in sharing:
         return bad('network', sharing)
+    if 'witness_type' in kw:
+        try:
+            got['witness_type'], got['multisig'] = imp.witness_type, bool(imp.multisig)
+        except Exception as e:
+            raise Discrepancy('import.plain.attr_raises', '%s: reading attributes raised %r' % (what, e), case)
+        if got['witness_type'] != kw['witness_type']:
+            return bad('witness_type', kw['witness_type'])
+        if got['multisig'] is not kw['multisig']:
+            return bad('multisig', kw['multisig'])
     _public_views(imp, pt, what, 'import.plain', case)
     return False
 
@@ -692,7 +706,9 @@ def key_strategy(ctx):
         for fmt in PRIVATE_FORMATS + PUBLIC_FORMATS:
             vias = ['Key', 'Key', 'HDKey'] + (['from_wif'] if fmt == 'wif' else [])
             imports.append({'fmt': fmt, 'via': draw(st.sampled_from(vias)),
-                            'hints': draw(_hint_strategy(['network', 'compressed', 'is_private']))})
+                            'hints': draw(_hint_strategy(['network', 'compressed', 'is_private'])),
+                            'hd': draw(st.sampled_from([None, None, ['legacy', 0], ['segwit', 1], ['p2sh-segwit', 1],
+                                                        ['legacy', 1], ['segwit', 0]]))})
         if draw(st.booleans()):
             imports.append({'fmt': 'wif', 'via': draw(st.sampled_from(['Key', 'HDKey', 'from_wif'])),
                             'hints': draw(_hint_strategy(['network', 'compressed_other']))})
